@@ -83,7 +83,7 @@ fn g_hostile_idiom(ch: &mut Chooser) -> gen::B {
     let n = ch.range(1, 6);
     for _ in 0..n {
         let slot = W::from_u64(ch.below(4) as u64);
-        match ch.below(8) {
+        match ch.below(10) {
             0 => {
                 // (sload(s) >> k) & mask  -> store elsewhere
                 b.push(slot);
@@ -215,19 +215,93 @@ fn g_hostile_idiom(ch: &mut Chooser) -> gen::B {
                 b.push(slot);
                 b.emit(asm::SSTORE);
             }
-            _ => {
-                // dynamic array element: keccak(slot) + hostile index, also pre-folded
+            7 => {
+                // dynamic array element: keccak(mem[o..o+size]) + hostile index, with every hash size
+                // from 0 up (0, partial word, one word, several words)
                 b.push(slot);
                 b.push(W::ZERO);
                 b.emit(asm::MSTORE);
-                b.push(W::from_u64(32));
-                b.push(W::ZERO);
+                let size = *ch.pick(&[32u64, 32, 32, 0, 0, 1, 31, 33, 64, 96]);
+                b.push(W::from_u64(size));
+                b.push(W::from_u64(*ch.pick(&[0u64, 0, 0, 32, 1])));
                 b.emit(asm::SHA3);
                 let i = hostile(ch);
                 b.push(i);
+                if ch.chance(1, 3) {
+                    b.emit(asm::SWAP1);
+                }
                 b.emit(asm::ADD);
+                if ch.chance(1, 2) {
+                    b.emit(asm::SLOAD);
+                    b.push(W::from_u64(7));
+                    b.emit(asm::SSTORE);
+                } else {
+                    b.emit(asm::CALLVALUE);
+                    b.emit(asm::SWAP1);
+                    b.emit(asm::SSTORE);
+                }
+            }
+            _ => {
+                // self-referential storage: the value stored into a location derived from a slot is
+                // that slot's own content (an array whose elements are the array, a mapping whose
+                // values or keys are the mapping, a packed word holding itself)
+                b.push(slot);
                 b.emit(asm::SLOAD);
-                b.push(W::from_u64(7));
+                match ch.below(4) {
+                    0 => {
+                        // sstore(keccak(slot) + idx, sload(slot))
+                        b.push(slot);
+                        b.push(W::ZERO);
+                        b.emit(asm::MSTORE);
+                        b.push(W::from_u64(32));
+                        b.push(W::ZERO);
+                        b.emit(asm::SHA3);
+                        b.push(W::ZERO);
+                        b.emit(asm::CALLDATALOAD);
+                        b.emit(asm::ADD);
+                    }
+                    1 => {
+                        // sstore(keccak(key . slot), sload(slot))
+                        b.emit(asm::CALLER);
+                        b.push(W::ZERO);
+                        b.emit(asm::MSTORE);
+                        b.push(slot);
+                        b.push(W::from_u64(32));
+                        b.emit(asm::MSTORE);
+                        b.push(W::from_u64(64));
+                        b.push(W::ZERO);
+                        b.emit(asm::SHA3);
+                    }
+                    2 => {
+                        // sstore(keccak(sload(slot) . slot), sload(slot)): the key is the mapping itself
+                        b.emit(asm::DUP1);
+                        b.push(W::ZERO);
+                        b.emit(asm::MSTORE);
+                        b.push(slot);
+                        b.push(W::from_u64(32));
+                        b.emit(asm::MSTORE);
+                        b.push(W::from_u64(64));
+                        b.push(W::ZERO);
+                        b.emit(asm::SHA3);
+                    }
+                    _ => {
+                        // nested: the element location of an element location
+                        b.push(slot);
+                        b.push(W::ZERO);
+                        b.emit(asm::MSTORE);
+                        b.push(W::from_u64(32));
+                        b.push(W::ZERO);
+                        b.emit(asm::SHA3);
+                        b.emit(asm::SLOAD);
+                        b.push(W::ZERO);
+                        b.emit(asm::MSTORE);
+                        b.push(W::from_u64(32));
+                        b.push(W::ZERO);
+                        b.emit(asm::SHA3);
+                        b.push(W::ONE);
+                        b.emit(asm::ADD);
+                    }
+                }
                 b.emit(asm::SSTORE);
             }
         }
